@@ -111,6 +111,12 @@ def run_family(prop, tier, seed, replay, origin="writer", mc_cfg=None, level="mo
                 rec["zoom_gap"] = any(b - a > 1 for a, b in zip(lv, lv[1:]))
                 if clist is not None and line - 1 < len(clist):
                     rec["replay_case"] = clist[line - 1]
+                    # C01 speaks of "every NON-EMPTY tile": what a writer / reader does with a tile of zero bytes is not
+                    # prescribed there (versatiles and PMTiles cannot even express one) -> an observation under C01; the same
+                    # cases are judged under C16 ("exactly the encoded tiles"), C02 and C03
+                    if prop == "C01" and clist[line - 1].get("directed") == "empty_payload":
+                        run.observation("zero_byte_tile", {"clause": cl, "fmt": rec["fmt"], "tf": rec["tf"]})
+                        continue
                 run.failure(rec)
 
     collect(v1.fails, "replay", case_list)
